@@ -453,6 +453,17 @@ func initiateRunQuery(wsData *WaitStateData, segsRLockFunc, segsRUnlockFunc func
 	RunQuery(*wsData)
 }
 
+// The query that PullQueriesToRun has taken off the waiting queue and is moving to the running
+// table. It is in neither of the two while that happens, so CancelQuery looks here as well.
+// Protected by waitingQueriesLock.
+var admittingQuery *WaitStateData
+
+func clearAdmittingQuery() {
+	waitingQueriesLock.Lock()
+	admittingQuery = nil
+	waitingQueriesLock.Unlock()
+}
+
 func getNextWaitStateData() *WaitStateData {
 	waitingQueriesLock.Lock()
 	defer waitingQueriesLock.Unlock()
@@ -463,6 +474,7 @@ func getNextWaitStateData() *WaitStateData {
 
 	wsData := waitingQueries[0]
 	waitingQueries = waitingQueries[1:]
+	admittingQuery = wsData
 	verifhook.At("q.dequeue", "qid", wsData.qid, "nwait", len(waitingQueries))
 	return wsData
 }
@@ -486,6 +498,7 @@ func PullQueriesToRun(ctx context.Context) {
 				}
 				verifhook.At("q.pull.got", "qid", wsData.qid)
 				initiateRunQuery(wsData, segmentsRLockFunc, segmentsRUnlockFunc)
+				clearAdmittingQuery()
 			}
 			time.Sleep(PULL_QUERY_INTERVAL)
 		}
@@ -809,9 +822,15 @@ func CancelQuery(qid uint64) {
 		if cancelWaitingQuery(qid) {
 			return
 		}
-		log.Debugf("CancelQuery: qid %+v does not exist!", qid)
-		verifhook.At("q.cancel.miss", "qid", qid)
-		return
+		// It may have been admitted between the two looks
+		arqMapLock.RLock()
+		rQuery, ok = allRunningQueries[qid]
+		arqMapLock.RUnlock()
+		if !ok {
+			log.Debugf("CancelQuery: qid %+v does not exist!", qid)
+			verifhook.At("q.cancel.miss", "qid", qid)
+			return
+		}
 	}
 	rQuery.rqsLock.Lock()
 	rQuery.isCancelled = true
@@ -848,6 +867,10 @@ func cancelWaitingQuery(qid uint64) bool {
 			verifhook.At("q.cancel.unqueued", "qid", qid, "nwait", len(waitingQueries))
 			break
 		}
+	}
+	if rQuery == nil && admittingQuery != nil && admittingQuery.qid == qid {
+		// already dequeued, not yet (known to be) running: RunQuery skips a cancelled query
+		rQuery = admittingQuery.rQuery
 	}
 	waitingQueriesLock.Unlock()
 
